@@ -85,7 +85,7 @@ def judge(chk, res, tier, seed, replaying=False):
                              "under_a_proved_lemma": st.get("actions_under_a_proved_sim_lemma"),
                              "judged_migrations": st.get("judged_migrations"),
                              "migrations_proved_as_a_whole(C04_Sim_plan_proved_kinds)": st.get("migrations_fully_under_sim_lemmas"),
-                             "proved_kinds": "CreateTable (no explicit CHECK; foreign-key clauses under engine acceptance), DeleteTable, AddColumn (plain column), DeleteColumn (column in no constraint), ModifyColumnType/Nullable/Default/Comment (not the auto-increment key), AddConstraint Index/Unique/Check, RemoveConstraint Check, RawSql"}}
+                             "proved_kinds": "all 13 action kinds under decidable hypotheses (sim_proved_for); not covered: the known-finding classes, and AddColumn with an inline constraint + its later AddConstraint"}}
     chk.cov["not_judged"] = dict(skipped)
     # open findings: the stored witness must still fail on the implementation and be explained by its own class
     for k in [k for k in known if k.get("status") == "open"]:
